@@ -5,8 +5,8 @@
    operations a replica has executed.  The kernels are the model functions validated
    against the Go code by the correspondence check (Model/Counter.v, Map.v). *)
 From Coq Require Import List ZArith Permutation.
-From Orda.Model Require Import Base Time Ops Counter Map.
-From Orda.Proofs Require Import OrderFacts Permute Sys CounterFacts MapFacts MapConv SnapshotFacts.
+From Orda.Model Require Import Base Time Ops Counter Map List.
+From Orda.Proofs Require Import TimeFacts OrderFacts Permute Sys CounterFacts MapFacts MapConv SnapshotFacts ListFacts ListConv.
 
 (* Counter: ANY two orders of the same operations give the same value (no readiness needed).
    [no_snap]: the operations exchanged between replicas; the snapshot operation a client creates with the
@@ -53,3 +53,101 @@ Theorem C01_abstract :
       fold_left apply l1 s = fold_left apply l2 s.
 Proof. exact executable_permutations_agree. Qed.
 Print Assumptions C01_abstract.
+
+(* List (RGA with tombstones, batches, per-element last-writer-wins).  [l_ready s o] — the operation can be executed at s:
+   its timestamp is new to the replica and within the plain range of the comparison, the elements it addresses (the
+   insert's target, the delete's / update's targets) are there — what causal delivery provides —, and it addresses no
+   element twice; the snapshot operation is never exchanged.  ANY two orders of the same operations in which each
+   operation can be executed when its turn comes lead to the same state: nodes with tombstones and timestamps, hence
+   values and view, and the size counter.  [loid] = the operation's timestamp without delimiter (C15: distinct operations
+   carry distinct ones). *)
+Theorem C01_list :
+  forall l1 l2 : list op, NoDup (map loid l1) -> Permutation l1 l2 ->
+    exec_ok lstate op l_exec_remote l_ready l_init l1 -> exec_ok lstate op l_exec_remote l_ready l_init l2 ->
+    fold_left l_exec_remote l1 l_init = fold_left l_exec_remote l2 l_init.
+Proof. exact list_states_converge. Qed.
+Print Assumptions C01_list.
+
+(* the premise explained: [l_ready] is exactly this *)
+Theorem C01_list_ready_is : forall s o,
+  l_ready s o <->
+  match o with
+  | OIns i tg vs => ts_bounded (opid_ts i) /\ ~ In (loid o) (nkeys (l_nodes s)) /\ (ts_eqb tg oldest_ts = true \/ In tg (ids (l_nodes s)))
+  | ODel i tgs => ts_bounded (opid_ts i) /\ ~ In (loid o) (nkeys (l_nodes s)) /\ NoDup tgs /\ incl tgs (ids (l_nodes s))
+  | OUpd i tgs vs => ts_bounded (opid_ts i) /\ ~ In (loid o) (nkeys (l_nodes s)) /\ NoDup tgs /\ incl tgs (ids (l_nodes s))
+  | OSnap _ => False
+  | _ => True
+  end.
+Proof. intros s o. unfold l_ready. destruct o; cbn [lready]; tauto. Qed.
+Print Assumptions C01_list_ready_is.
+
+(* the issuing replica: executing a call locally IS executing the operation it emits (so a replica's state is the
+   remote execution of everything it has applied, own operations included), and that operation can be executed there.
+   [newest]: the new operation's timestamp exceeds every timestamp in the state — the Lamport clock (C15) *)
+Theorem C01_list_local_is_remote : forall s c i s' o r,
+  l_exec_local s c i = Some (s', o, r) ->
+  lgood (l_nodes s) -> nohead (l_nodes s) -> ts_bounded (opid_ts i) -> newest (l_nodes s) (key_of (opid_ts i)) ->
+  lready (l_nodes s) o /\ l_nodes s' = l_nodes (l_exec_remote s o).
+Proof. intros s c i s' o r H1 H2 H3 H4 H5. rewrite nodes_exec. exact (list_local_is_remote s c i s' o r H1 H2 H3 H4 H5). Qed.
+Print Assumptions C01_list_local_is_remote.
+
+(* the invariants used are kept by every executable history: identities distinct, timestamps in range, size = number of
+   live elements *)
+Theorem C01_list_invariants : forall ops,
+  exec_ok lstate op l_exec_remote l_ready l_init ops ->
+  let s := fold_left l_exec_remote ops l_init in
+  lgood (l_nodes s) /\ l_size s = Z.of_nat (length (l_values s)).
+Proof.
+  intros ops H. destruct (exec_ok_invariants ops l_init lgood_nil eq_refl H) as [G [S _]]. split; [exact G|exact S].
+Qed.
+Print Assumptions C01_list_invariants.
+
+(* non-vacuity: a and b insert concurrently at the head (a a batch of two), b deletes a's first element while a updates
+   it, a inserts behind its second element; two replicas receive these in different executable orders *)
+Example C01_list_example :
+  let a := [97]%N in let b := [98]%N in
+  let o1 := OIns (mkOpid 0 1 a 1) oldest_ts [VStr [1]%N; VStr [2]%N] in
+  let o2 := OIns (mkOpid 0 1 b 1) oldest_ts [VStr [3]%N] in
+  let o3 := ODel (mkOpid 0 2 b 2) [mkTs 0 1 a 0] in
+  let o4 := OUpd (mkOpid 0 2 a 2) [mkTs 0 1 a 0] [VStr [9]%N] in
+  let o5 := OIns (mkOpid 0 3 a 3) (mkTs 0 1 a 1) [VStr [4]%N] in
+  let h1 := [o1; o2; o3; o4; o5] in let h2 := [o2; o1; o4; o5; o3] in
+  exec_ok lstate op l_exec_remote l_ready l_init h1 /\ exec_ok lstate op l_exec_remote l_ready l_init h2 /\
+  NoDup (map loid h1) /\ Permutation h1 h2 /\
+  l_values (fold_left l_exec_remote h1 l_init) = [VStr [3]%N; VStr [2]%N; VStr [4]%N].
+Proof.
+  cbv zeta. split; [|split; [|split; [|split]]].
+  - cbn [exec_ok]. unfold l_ready. repeat split; try (vm_compute; reflexivity); try (vm_compute; intuition discriminate);
+      try (vm_compute; auto); try (repeat constructor; vm_compute; intuition discriminate).
+  - cbn [exec_ok]. unfold l_ready. repeat split; try (vm_compute; reflexivity); try (vm_compute; intuition discriminate);
+      try (vm_compute; auto); try (repeat constructor; vm_compute; intuition discriminate).
+  - cbn [map]. repeat (apply NoDup_cons; [vm_compute; intuition discriminate|]). apply NoDup_nil.
+  - match goal with |- Permutation [?x1; ?x2; ?x3; ?x4; ?x5] _ =>
+      apply (perm_trans (perm_swap x2 x1 [x3; x4; x5])); apply perm_skip, perm_skip;
+      apply (perm_trans (perm_swap x4 x3 [x5])); apply perm_skip; apply perm_swap end.
+  - vm_compute. reflexivity.
+Qed.
+Print Assumptions C01_list_example.
+
+(* non-vacuity of the local/remote link: on the state reached by two concurrent head inserts, a local batch update at
+   index 1 with a newer timestamp meets the premises, and its outcome is the remote execution of the operation it emits *)
+Example C01_list_local_example :
+  let a := [97]%N in let b := [98]%N in
+  let o1 := OIns (mkOpid 0 1 a 1) oldest_ts [VStr [1]%N; VStr [2]%N] in
+  let o2 := OIns (mkOpid 0 1 b 1) oldest_ts [VStr [3]%N] in
+  let s := fold_left l_exec_remote [o1; o2] l_init in
+  let i := mkOpid 0 5 a 2 in
+  lgood (l_nodes s) /\ nohead (l_nodes s) /\ ts_bounded (opid_ts i) /\ newest (l_nodes s) (key_of (opid_ts i)) /\
+  exists s' o r, l_exec_local s (LUpdate 1 [VStr [7]%N; VStr [8]%N]) i = Some (s', o, r) /\
+                 l_values s' = [VStr [3]%N; VStr [7]%N; VStr [8]%N] /\ l_nodes s' = l_nodes (l_exec_remote s o).
+Proof.
+  cbv zeta. split; [|split; [|split; [|split]]].
+  - split.
+    + vm_compute. repeat (apply NoDup_cons; [cbn; intuition discriminate|]). apply NoDup_nil.
+    + match goal with |- bnodes ?l => let v := eval vm_compute in l in change l with v end. unfold bnodes. repeat constructor.
+  - vm_compute. intuition discriminate.
+  - vm_compute. split; reflexivity.
+  - intros x Hx. vm_compute in Hx. destruct Hx as [<-|[<-|[<-|[]]]]; vm_compute; split; reflexivity.
+  - eexists _, _, _. split; [vm_compute; reflexivity|]. split; vm_compute; reflexivity.
+Qed.
+Print Assumptions C01_list_local_example.
